@@ -676,6 +676,26 @@ static void run_fn(long k, const params_t *p)
     printf("%ld R srv st=%d aif=%d servers=%s\n", k, (int)st, c->sock_funcs.aif_nametoindex != NULL, csv ? (*csv ? csv : ".") : "(null)");
     ares_free_string(csv);
     ares_destroy(c);
+  } else if (strcmp(f, "addr") == 0) {
+    /* ares_dns_pton / ares_inet_ntop on one text: the hypothesis of C16_csv_fixpoint */
+    struct ares_addr a, a2;
+    size_t           alen = 0;
+    char             txt[INET6_ADDRSTRLEN + 4] = "";
+    memset(&a, 0, sizeof(a));
+    a.family = AF_UNSPEC;
+    if (ares_dns_pton(arg, &a, &alen) == NULL) {
+      printf("%ld R addr fail\n", k);
+    } else {
+      printf("%ld R addr ok a=", k);
+      dump_addr(&a);
+      ares_inet_ntop(a.family, &a.addr, txt, sizeof(txt));
+      printf(" text=");
+      puthexstr(txt);
+      memset(&a2, 0, sizeof(a2));
+      a2.family = AF_UNSPEC;
+      if (ares_dns_pton(txt, &a2, &alen) == NULL) printf(" back=fail\n");
+      else { printf(" back="); dump_addr(&a2); printf("\n"); }
+    }
   } else if (strcmp(f, "alias") == 0) {
     /* host-aliases lookup: units A/a are the file, name= the host looked up */
     int v;
